@@ -113,6 +113,27 @@ def rand_history(rng, n):
     return ops
 
 
+def same_second_history(rng):
+    """several exchanges whose deadlines fall in the same second, registered in an arbitrary order; some are acknowledged
+    and their identifiers re-used with far deadlines; a sweep falls after that second and before the new deadlines"""
+    ops = ["new"]
+    sec = rng.choice([3000, 4000])
+    k = rng.choice([2, 3, 4])
+    offs = rng.sample([-400, -300, -100, 0, 100, 200, 300, 400, 499], k)
+    keys = [(rng.choice(PFX), m) for m in rng.sample([1, 2, 3, 4], k)]
+    for (p, m), o in zip(keys, offs):
+        ops.append(f"ins {p} publish 1 {m} {sec + o}")
+    acked = rng.sample(keys, rng.choice([1, 1, 2, k]))
+    for (p, m) in acked:
+        ops.append(f"ack {p} puback {m}")
+    for (p, m) in acked:
+        if rng.random() < 0.8:
+            ops.append(f"ins {p} publish {rng.choice([1, 2])} {m} {sec + rng.choice([3000, 4200, 6000])}")
+    ops.append(f"exp {sec + 1001}")
+    ops.append(f"exp {sec + 20000}")
+    return ops
+
+
 def add_queue_suites(c, samples, exhaustive_n, n_random):
     rng = c.rng
     # exhaustive short histories over 2 sessions x 2 ids x 3 deadlines
@@ -130,6 +151,9 @@ def add_queue_suites(c, samples, exhaustive_n, n_random):
     ops, cases = [], 0
     for _ in range(n_random):
         ops += rand_history(rng, rng.choice([6, 12, 25, 60]))
+        cases += 1
+    for _ in range(max(100, n_random // 5)):
+        ops += same_second_history(rng)
         cases += 1
     c.run_suite(Suite("ackq-random-collisions", "ackq", ops, monitor, {"cases": cases, "nontrivial": cases}))
     samples.append({"suite": "ackq-random-collisions", "ops": ops[:14]})
